@@ -24,7 +24,7 @@ func c11GrowingLists(c *core.Check) {
 // c01GrowingPlaceholders (R22): the same rule for the lists of absolute and fixed placeholders: a placeholder that
 // is appended while the list is laid out and never visited keeps its nil sizes, and the first read of them panics.
 func c01GrowingPlaceholders(c *core.Check) {
-	r := c.Rule("R22", "every placeholder is laid out: a loop that lays out a local list of absolute/fixed placeholders and passes the list's address to the layout (which appends the fixed boxes it meets) re-reads the list's length on every iteration; a placeholder skipped by a range snapshot keeps nil sizes, which the background layout dereferences", 3)
+	r := c.Rule("R22", "every placeholder is laid out: a loop that lays out a local list of absolute/fixed placeholders and passes the list's address to the layout (which appends the fixed boxes it meets) re-reads the list's length on every iteration; a placeholder skipped by a range snapshot keeps nil sizes, which the background layout dereferences", 1)
 	growingListsRule(c, r, true)
 }
 
